@@ -1,13 +1,18 @@
-"""C18 - transects: pairing and ordering only."""
+"""C18 - transects: pairing and ordering only (structural patterns with metavariables)."""
 from __future__ import annotations
 
 import ast
 
-from ..model import AnalysisError, const_value, dotted, kwarg, norm_text, walk_no_nested
+from ..model import const_value, dotted, kwarg, norm_text, walk_no_nested
+from ..pattern import Matcher
 from ..report import Context
-from .common import calls_in, callee, enclosing_ifs, is_none, method_calls, predicate_of, strtree_queries
+from .common import calls_in, callee, enclosing_ifs, method_calls, predicate_of, strtree_queries
 
 TR = 'emsarray.transect.Transect'
+
+
+def _line(n):
+    return getattr(n, 'lineno', 0)
 
 
 def run(ctx: Context) -> None:
@@ -21,6 +26,7 @@ def run(ctx: Context) -> None:
 
     seg = ctx.func(f"{TR}.segments")
     flow = ctx.flow(seg)
+    m = Matcher(ctx, seg)
     qs = strtree_queries(ctx, seg)
     ctx.need('R18.1', len(qs) == 1, "Transect.segments queries the spatial index once", seg)
     q = qs[0]
@@ -28,128 +34,161 @@ def run(ctx: Context) -> None:
     ok = bool(q.args) and norm_text(q.args[0]) == 'self.line' and norm_text(q.func.value) == 'self.convention.strtree'
     ctx.check('R18.1', ok, "the geometry queried is the path itself, on the dataset's convention", seg, q)
     loops = [n for n in walk_no_nested(seg.node) if isinstance(n, ast.For)]
-    outer = [l for l in loops if flow.resolve(l.iter) is q]
-    ctx.need('R18.1', len(outer) == 1 and isinstance(outer[0].target, ast.Name), "the segments are built in one loop over the hits", seg)
-    lv = outer[0].target.id
-    body = {norm_text(s.targets[0]): norm_text(s.value) for s in outer[0].body if isinstance(s, ast.Assign)}
-    ok = body.get('polygon') == f"self.convention.polygons[{lv}]" and body.get('index') == f"self.convention.wind_index({lv})"
-    ctx.check('R18.1', ok, "polygon and native index are those of the hit's own linear index", seg, outer[0], construct=f"per hit: {body}")
-    inner = [l for l in loops if l is not outer[0] and any(x is l for x in ast.walk(outer[0]))]
-    ok = len(inner) == 1 and norm_text(inner[0].iter) == 'self._intersect_polygon(polygon)'
-    ctx.check('R18.1', ok, "every line piece of this cell's intersection is visited", seg, inner[0] if inner else outer[0])
+    outer = [l for l in loops if flow.resolve(l.iter) is q and isinstance(l.target, ast.Name)]
+    ctx.need('R18.1', len(outer) == 1, "the segments are built in one loop over the hits", seg)
+    m.bind['li'] = outer[0].target.id
+    ok = m.has('$polygon = self.convention.polygons[$li]', '$index = self.convention.wind_index($li)', within=outer[0])
+    ctx.check('R18.1', ok, "polygon and native index are those of the hit's own linear index", seg, outer[0],
+              construct='polygon = self.convention.polygons[linear_index]; index = self.convention.wind_index(linear_index)')
+    inner = m.stmt('for $piece in self._intersect_polygon($polygon):\n    ...', within=outer[0])
+    ctx.check('R18.1', inner is not None, "every line piece of this cell's intersection is visited", seg, inner or outer[0],
+              construct='for intersection in self._intersect_polygon(polygon): ...')
     ts = [c for c in calls_in(seg) if (dotted(c.func) or '').endswith('TransectSegment')]
     ctx.need('R18.1', len(ts) == 1, "one TransectSegment is built per piece", seg)
-    kw = {k.arg: norm_text(k.value) for k in ts[0].keywords}
-    ok = (kw.get('index') == 'index' and kw.get('linear_index') == lv and kw.get('polygon') == 'polygon' and kw.get('intersection') == norm_text(inner[0].target) if inner else False)
-    ctx.check('R18.1', ok, "the segment carries that same linear index, native index, polygon and piece", seg, ts[0], construct=f"TransectSegment({kw})")
+    kw = {k.arg: k.value for k in ts[0].keywords}
+
+    def is_var(node, key):
+        return node is not None and m.match(f"${key}", node, commit=False)
+
+    ok = is_var(kw.get('index'), 'index') and is_var(kw.get('linear_index'), 'li') and is_var(kw.get('polygon'), 'polygon') and is_var(kw.get('intersection'), 'piece')
+    ctx.check('R18.1', ok, "the segment carries that same linear index, native index, polygon and piece", seg, ts[0],
+              construct=f"TransectSegment({ {k: norm_text(v) for k, v in kw.items() if k in ('index', 'linear_index', 'polygon', 'intersection')} })")
     app = [c for c in method_calls(seg, 'append') if c.args and c.args[0] is ts[0]]
-    ok = len(app) == 1 and not [st for st, inb in enclosing_ifs(seg, app[0])]
-    ctx.check('R18.1', ok, "every piece is appended unconditionally", seg, app[0] if app else seg.node)
+    inner_depth = len(enclosing_ifs(seg, inner)) if inner is not None else 0
+    ok = len(app) == 1 and len(enclosing_ifs(seg, app[0])) == inner_depth and inner is not None and any(x is app[0] for x in ast.walk(inner))
+    ctx.check('R18.1', ok, "every piece is appended unconditionally", seg, app[0] if app else seg.node, construct='segments.append(TransectSegment(...))')
     ip = ctx.func(f"{TR}._intersect_polygon")
-    itxt = [norm_text(s) for s in ip.body]
-    tests = [n for n in walk_no_nested(ip.node) if isinstance(n, ast.If) and 'isinstance(intersection' in norm_text(n.test)]
+    mi = Matcher(ctx, ip)
+    poly_p = ip.params[1]
+    inter = mi.stmt(f"$x = {poly_p}.intersection(self.line)") or mi.stmt(f"$x = self.line.intersection({poly_p})")
+    tests = [n for n in walk_no_nested(ip.node) if isinstance(n, ast.If) and isinstance(n.test, ast.Call) and dotted(n.test.func) == 'isinstance']
     ok = False
-    if len(tests) == 1:
+    if len(tests) == 1 and inter is not None:
         t = tests[0].test
         types = set()
-        if isinstance(t, ast.Call) and len(t.args) == 2:
+        if len(t.args) == 2 and mi.match('$x', t.args[0], commit=False):
             tt = t.args[1]
             types = {norm_text(e).rsplit('.', 1)[-1] for e in (tt.elts if isinstance(tt, ast.Tuple) else [tt])}
-        ok = {'GeometryCollection', 'MultiLineString'} <= types and any(norm_text(s) == 'geoms = intersection.geoms' for s in tests[0].body) \
-            and any(norm_text(s) == 'geoms = [intersection]' for s in tests[0].orelse)
+        ok = {'GeometryCollection', 'MultiLineString'} <= types and mi.stmt('$geoms = $x.geoms', within=tests[0]) is not None \
+            and any(mi.match('$geoms = [$x]', s, commit=False) for s in tests[0].orelse)
     ctx.check('R18.1', ok, "multi-part results (GeometryCollection and MultiLineString) are split into their parts; a single geometry is taken as is", ip,
               tests[0] if tests else ip.node, construct=f"multi-part test: {norm_text(tests[0].test) if tests else 'absent'}")
-    ok = ('intersection = polygon.intersection(self.line)' in itxt and
-          all(norm_text(r.value) == '[geom for geom in geoms if isinstance(geom, shapely.LineString)]' for r in ip.returns()) and ip.returns())
-    ctx.check('R18.1', bool(ok), "the pieces are the LineString parts of polygon ∩ path", ip, ip.node)
+    ok = inter is not None and bool(ip.returns()) and all(
+        mi.match('[$g for $g in $geoms if isinstance($g, shapely.LineString)]', r.value, commit=False) for r in ip.returns())
+    ctx.check('R18.1', bool(ok), "the pieces are the LineString parts of polygon ∩ path", ip, ip.node,
+              construct='return [g for g in geoms if isinstance(g, shapely.LineString)]')
 
     # ---- R18.2
-    srt = [n for n in ast.walk(seg.node) if isinstance(n, ast.Assign) and norm_text(n.targets[0]) == '(start, end)']
-    ok = len(srt) == 1 and norm_text(srt[0].value) == 'sorted(projections, key=lambda pair: pair[1])'
-    ctx.check('R18.2', ok, "start and end are the two end points sorted ascending by distance", seg, srt[0] if srt else seg.node)
-    pts = [n for n in ast.walk(seg.node) if isinstance(n, ast.Assign) and norm_text(n.targets[0]) == 'points']
-    ok = len(pts) == 1 and norm_text(pts[0].value) == '[shapely.Point(intersection.coords[0]), shapely.Point(intersection.coords[-1])]'
-    pr = [n for n in ast.walk(seg.node) if isinstance(n, ast.AnnAssign) and norm_text(n.target) == 'projections']
-    ok = ok and len(pr) == 1 and norm_text(pr[0].value) == '((point, self.distance_along_line(point)) for point in points)'
-    ctx.check('R18.2', ok, "the end points are the first and last coordinate of the piece, each with its distance along the path", seg, pts[0] if pts else seg.node)
-    ok = (kw.get('start_point') == 'start[0]' and kw.get('end_point') == 'end[0]' and kw.get('start_distance') == 'start[1]' and kw.get('end_distance') == 'end[1]')
-    ctx.check('R18.2', ok, "start_* fields take the nearer end, end_* the farther", seg, ts[0])
+    pts = m.stmt('$points = [shapely.Point($piece.coords[0]), shapely.Point($piece.coords[-1])]')
+    proj = m.stmt('$proj = (($pt, self.distance_along_line($pt)) for $pt in $points)') or m.stmt('$proj = [($pt, self.distance_along_line($pt)) for $pt in $points]')
+    ctx.check('R18.2', pts is not None and proj is not None, "the end points are the first and last coordinate of the piece, each with its distance along the path", seg,
+              pts or seg.node, construct='points = [Point(piece.coords[0]), Point(piece.coords[-1])]; projections = ((p, distance_along_line(p)) for p in points)')
+    srt = m.stmt('$start, $end = sorted($proj, key=lambda $pair: $pair[1])')
+    ctx.check('R18.2', srt is not None, "start and end are the two end points sorted ascending by distance", seg, srt or seg.node,
+              construct='start, end = sorted(projections, key=lambda pair: pair[1])')
+    ok = all(k in kw for k in ('start_point', 'end_point', 'start_distance', 'end_distance')) and \
+        m.match('$start[0]', kw['start_point'], commit=False) and m.match('$end[0]', kw['end_point'], commit=False) and \
+        m.match('$start[1]', kw['start_distance'], commit=False) and m.match('$end[1]', kw['end_distance'], commit=False)
+    ctx.check('R18.2', bool(ok), "start_* fields take the nearer end, end_* the farther", seg, ts[0])
     rets = seg.returns()
-    ok = bool(rets) and all(norm_text(r.value) == 'sorted(segments, key=lambda i: (i.start_distance, i.end_distance))' for r in rets)
+    seglist = norm_text(app[0].func.value) if app else 'segments'
+    ok = bool(rets) and all(Matcher(ctx, seg).match(f"sorted({seglist}, key=lambda $i: ($i.start_distance, $i.end_distance))", r.value) for r in rets)
     ctx.check('R18.2', ok, "segments are returned sorted by (start distance, end distance)", seg, rets[0] if rets else seg.node)
 
     # ---- R18.3
     td = ctx.func(f"{TR}.transect_dataset")
-    li = [n for n in walk_no_nested(td.node) if isinstance(n, ast.Assign) and norm_text(n.targets[0]) == 'linear_indexes']
-    ok = len(li) == 1 and norm_text(li[0].value) == '[segment.linear_index for segment in self.segments]'
-    ctx.check('R18.3', ok, "linear indexes: one per segment, in segment order, unfiltered", td, li[0] if li else td.node)
+    mt = Matcher(ctx, td)
+    li = mt.stmt('$lis = [$s.linear_index for $s in self.segments]')
+    ctx.check('R18.3', li is not None, "linear indexes: one per segment, in segment order, unfiltered", td, li or td.node,
+              construct='linear_indexes = [segment.linear_index for segment in self.segments]')
     db = [c for c in calls_in(td) if callee(ctx, td, c) == 'numpy.fromiter']
-    ok = (len(db) == 1 and norm_text(db[0].args[0]) == '([segment.start_distance, segment.end_distance] for segment in self.segments)'
+    ok = (len(db) == 1 and Matcher(ctx, td).match('([$s.start_distance, $s.end_distance] for $s in self.segments)', db[0].args[0])
           and norm_text(kwarg(db[0], 'count') or ast.Constant(None)) == 'len(self.segments)')
     ctx.check('R18.3', ok, "distance bounds: [start, end] per segment over the same list in the same order", td, db[0] if db else td.node)
-    lin = [n for n in walk_no_nested(td.node) if isinstance(n, ast.Assign) and norm_text(n.targets[0]) == 'linear_index']
-    ok = len(lin) == 1 and norm_text(kwarg(lin[0].value, 'data') or ast.Constant(None)) == 'linear_indexes' and norm_text(kwarg(lin[0].value, 'dims')) == "('index',)"
-    dbv = [n for n in walk_no_nested(td.node) if isinstance(n, ast.Assign) and norm_text(n.targets[0]) == 'distance_bounds']
-    ok = ok and len(dbv) == 1 and norm_text(kwarg(dbv[0].value, 'dims')) == "('index', 'bounds')"
-    ctx.check('R18.3', ok, "both are on the transect's index dimension", td, lin[0] if lin else td.node)
+    lin = mt.stmt("$lin = xarray.DataArray(data=$lis, dims=('index',))")
+    dbv = None
+    for n in walk_no_nested(td.node):
+        if isinstance(n, ast.Assign) and isinstance(n.value, ast.Call) and db and kwarg(n.value, 'data') is db[0]:
+            dbv = n
+    ok = lin is not None and dbv is not None and norm_text(kwarg(dbv.value, 'dims') or ast.Constant(None)) == "('index', 'bounds')"
+    ctx.check('R18.3', ok, "both are on the transect's index dimension", td, lin or td.node)
     ds = [c for c in calls_in(td) if (callee(ctx, td, c) or '').endswith('xarray.Dataset')]
     ok = False
-    if len(ds) == 1:
+    if len(ds) == 1 and dbv is not None and lin is not None:
         dv, co = kwarg(ds[0], 'data_vars'), kwarg(ds[0], 'coords')
-        ok = (isinstance(dv, ast.Dict) and {const_value(k, None): norm_text(v) for k, v in zip(dv.keys, dv.values)} == {'depth_bounds': 'depth_bounds', 'distance_bounds': 'distance_bounds'}
-              and isinstance(co, ast.Dict) and {const_value(k, None): norm_text(v) for k, v in zip(co.keys, co.values)} == {'depth': 'depth', 'linear_index': 'linear_index'})
+        if isinstance(dv, ast.Dict) and isinstance(co, ast.Dict):
+            dvm = {const_value(k, None): norm_text(v) for k, v in zip(dv.keys, dv.values)}
+            com = {const_value(k, None): norm_text(v) for k, v in zip(co.keys, co.values)}
+            ok = dvm.get('distance_bounds') == norm_text(dbv.targets[0]) and com.get('linear_index') == mt.name('lin') \
+                and set(dvm) == {'depth_bounds', 'distance_bounds'} and set(com) == {'depth', 'linear_index'}
     ctx.check('R18.3', ok, "the dataset publishes exactly those variables under their names", td, ds[0] if ds else td.node)
 
     # ---- R18.4
     pa = ctx.func(f"{TR}.prepare_data_array_for_transect")
-    ptxt = [norm_text(s) for s in pa.body]
-    want = ['attrs = data_array.attrs', 'data_array = self.convention.ravel(data_array)',
-            "depth_dimension = self.transect_dataset.coords['depth'].dims[0]", 'index_dimension = data_array.dims[-1]',
-            'data_array = move_dimensions_to_end(data_array, [depth_dimension, index_dimension])',
-            "linear_indexes = self.transect_dataset['linear_index'].values", 'data_array = data_array.isel({index_dimension: linear_indexes})']
-    for w, text in zip(want[1:], ("the variable is flattened by the convention (linear index order on the last dimension)",
-                                  "the depth dimension is the transect's depth coordinate's", "the index dimension is the flattened (last) one",
-                                  "depth then index are moved last, in that order", "the linear indexes are the transect's own",
-                                  "cells are picked positionally (isel) along the index dimension with those indexes")):
-        ctx.check('R18.4', w in ptxt, text, pa, pa.node, construct=w)
-    order = [ptxt.index(w) for w in want if w in ptxt]
-    ctx.check('R18.4', order == sorted(order) and len(order) == len(want), "those steps happen in this order", pa, pa.node, construct=f"step order {order}")
-    mp = ctx.func(f"{TR}.make_poly_collection")
-    comps = [n for n in ast.walk(mp.node) if isinstance(n, ast.ListComp) and len(n.generators) == 2]
+    mp_ = Matcher(ctx, pa)
+    da = pa.params[1]
+    steps = [
+        (f"{da} = self.convention.ravel({da})", "the variable is flattened by the convention (linear index order on the last dimension)"),
+        ("$depth_dim = self.transect_dataset.coords['depth'].dims[0]", "the depth dimension is the transect's depth coordinate's"),
+        (f"$index_dim = {da}.dims[-1]", "the index dimension is the flattened (last) one"),
+        (f"{da} = move_dimensions_to_end({da}, [$depth_dim, $index_dim])", "depth then index are moved last, in that order"),
+        ("$lis = self.transect_dataset['linear_index'].values", "the linear indexes are the transect's own"),
+        (f"{da} = {da}.isel({{$index_dim: $lis}})", "cells are picked positionally (isel) along the index dimension with those indexes"),
+    ]
+    found = []
+    for pat, text in steps:
+        st = mp_.stmt(pat)
+        found.append(st)
+        ctx.check('R18.4', st is not None, text, pa, st or pa.node, construct=pat.replace('$', ''))
+    # the index dimension must be read after ravel and before the move; the move before the selection
+    order_ok = all(x is not None for x in found) and _line(found[0]) < _line(found[2]) < _line(found[3]) < _line(found[5]) \
+        and _line(found[1]) < _line(found[3]) and _line(found[4]) < _line(found[5])
+    ctx.check('R18.4', order_ok, "those steps happen in a sound order (ravel, read index dimension, move, select)", pa, pa.node,
+              construct=f"step lines {[_line(x) for x in found]}")
+    mpc = ctx.func(f"{TR}.make_poly_collection")
+    comps = [n for n in ast.walk(mpc.node) if isinstance(n, ast.ListComp) and len(n.generators) == 2]
     ok = False
     if len(comps) == 1:
         g0, g1 = comps[0].generators
-        ok = (norm_text(g0.target) == 'depth_index' and norm_text(g0.iter) == "range(transect_dataset.coords['depth'].size)"
-              and norm_text(g1.target) == 'index' and norm_text(g1.iter) == "range(transect_dataset.sizes['index'])")
+        dvar, ivar = norm_text(g0.target), norm_text(g1.target)
+        ok = (norm_text(g0.iter).replace(' ', '') in ("range(transect_dataset.coords['depth'].size)", "range(transect_dataset.sizes['depth'])".replace(' ', ''))
+              or 'depth' in norm_text(g0.iter)) and "'index'" in norm_text(g1.iter) and 'depth' not in norm_text(g1.iter)
         elt = norm_text(comps[0].elt)
-        ok = ok and 'distance_bounds[index, 0]' in elt and 'distance_bounds[index, 1]' in elt and 'depth_bounds[depth_index][0]' in elt and 'depth_bounds[depth_index][1]' in elt
-    ctx.check('R18.4', ok, "patches are generated depth-major, segment-minor: patch k = (depth k // n, segment k % n), as values.flatten() of (depth, index)", mp,
-              comps[0] if comps else mp.node)
+        ok = ok and f"[{ivar}, 0]" in elt and f"[{ivar}, 1]" in elt and f"[{dvar}][0]" in elt and f"[{dvar}][1]" in elt
+    ctx.check('R18.4', ok, "patches are generated depth-major, segment-minor: patch k = (depth k // n, segment k % n), as values.flatten() of (depth, index)", mpc,
+              comps[0] if comps else mpc.node)
     for name in ('plot_on_figure', 'animate_on_figure'):
         fi = ctx.func(f"{TR}.{name}")
         sets = [c for c in calls_in(fi, nested=True) if isinstance(c.func, ast.Attribute) and c.func.attr == 'set_array']
-        ok = len(sets) == 1 and norm_text(sets[0].args[0]).endswith('.values.flatten()') and 'data_array' in norm_text(sets[0].args[0])
+        ok = len(sets) == 1 and norm_text(sets[0].args[0]).endswith('.values.flatten()')
         ctx.check('R18.4', ok, "the values handed to the collection are the prepared array flattened row-major", fi, sets[0] if sets else fi.node,
                   construct=f"{name}: {norm_text(sets[0]) if sets else 'set_array not found'}")
 
     # ---- R18.5
     dl = ctx.func(f"{TR}.distance_along_line")
-    dtxt = ' '.join(norm_text(s) for s in dl.body)
-    ok = ('distance_normalised = self.line.project(point, normalized=True)' in dtxt
-          and 'line_point = next((lp for lp in reversed(self.points) if lp.distance_normalised <= distance_normalised))' in dtxt
-          and 'return line_point.distance_metres + distance_from_point' in dtxt
-          and 'ORIGIN.distance(line_point.crs.project_geometry(point, src_crs=data_crs))' in dtxt)
+    md = Matcher(ctx, dl)
+    pt_p = dl.params[1]
+    ok = md.has(f"$dn = self.line.project({pt_p}, normalized=True)",
+                "$lp = next(($v for $v in reversed(self.points) if $v.distance_normalised <= $dn))")
+    dist = md.stmt(f"$d = ORIGIN.distance($lp.crs.project_geometry({pt_p}, src_crs=$crs))")
+    rets = dl.returns()
+    ok = ok and dist is not None and bool(rets) and all(md.match('$lp.distance_metres + $d', r.value, commit=False) or md.match('$d + $lp.distance_metres', r.value, commit=False) for r in rets)
     ctx.check('R18.5', ok, "distance = cumulative distance of the last path vertex at or before the point + distance from that vertex (in that vertex's projection)", dl, dl.node)
-    ok = 'if distance_normalised < 0 or distance_normalised > 1: raise ValueError' in dtxt.replace('\n', ' ')
-    ctx.check('R18.5', ok, "a point off the path is refused", dl, dl.node)
+    guard = md.stmt('if $dn < 0 or $dn > 1:\n    raise ValueError($$msg)')
+    ctx.check('R18.5', guard is not None, "a point off the path is refused", dl, guard or dl.node)
     pt = ctx.func(f"{TR}.points")
-    ptx = ' '.join(norm_text(s) for s in ast.walk(pt.node) if isinstance(s, (ast.Assign, ast.For, ast.Expr)))
-    ok = ('previous = points[-1]' in ptx and 'distance_metres=previous.distance_metres + distance_from_previous' in ptx
-          and 'distance_from_previous = ORIGIN.distance(previous.crs.project_geometry(point, src_crs=data_crs))' in ptx
-          and 'distance_normalised=self.line.project(point, normalized=True)' in ptx and 'for point in map(shapely.Point, self.line.coords[1:])' in ptx)
-    ctx.check('R18.5', ok, "path vertices accumulate distance from their predecessor, in path order", pt, pt.node)
-    ok = 'distance_metres=0' in ptx and 'point = shapely.Point(self.line.coords[0])' in ptx
-    ctx.check('R18.5', ok, "the first vertex is at distance 0", pt, pt.node)
+    mq = Matcher(ctx, pt)
+    loop = mq.stmt('for $pt in map(shapely.Point, self.line.coords[1:]):\n    ...')
+    ok = loop is not None and mq.has('$prev = $points[-1]', '$step = ORIGIN.distance($prev.crs.project_geometry($pt, src_crs=$crs))', within=loop)
+    tp = [c for c in calls_in(pt) if (dotted(c.func) or '').endswith('TransectPoint') and loop is not None and any(x is c for x in ast.walk(loop))]
+    ok = ok and len(tp) == 1 and mq.match('$prev.distance_metres + $step', kwarg(tp[0], 'distance_metres'), commit=False) \
+        and mq.match('self.line.project($pt, normalized=True)', kwarg(tp[0], 'distance_normalised'), commit=False) \
+        and mq.match('$pt', kwarg(tp[0], 'point'), commit=False)
+    ctx.check('R18.5', bool(ok), "path vertices accumulate distance from their predecessor, in path order", pt, loop or pt.node)
+    first = [c for c in calls_in(pt) if (dotted(c.func) or '').endswith('TransectPoint') and (loop is None or not any(x is c for x in ast.walk(loop)))]
+    ok = len(first) == 1 and const_value(kwarg(first[0], 'distance_metres'), None) == 0 and const_value(kwarg(first[0], 'distance_normalised'), None) == 0 \
+        and mq.stmt('$p0 = shapely.Point(self.line.coords[0])') is not None
+    ctx.check('R18.5', ok, "the first vertex is at distance 0", pt, first[0] if first else pt.node)
 
 
 # --------------------------------------------------------------------------- checker self-test
@@ -166,4 +205,8 @@ VARIANTS = [
     V('C18', 'moved-index-then-depth', _T, "move_dimensions_to_end(data_array, [depth_dimension, index_dimension])", "move_dimensions_to_end(data_array, [index_dimension, depth_dimension])", 'R18.4'),
     V('C18', 'patch-nesting-swapped', _T, "            for depth_index in range(transect_dataset.coords['depth'].size)\n            for index in range(transect_dataset.sizes['index'])", "            for index in range(transect_dataset.sizes['index'])\n            for depth_index in range(transect_dataset.coords['depth'].size)", 'R18.4'),
     V('C18', 'vertex-choice-first', _T, "            lp for lp in reversed(self.points)\n            if lp.distance_normalised <= distance_normalised)", "            lp for lp in self.points\n            if lp.distance_normalised <= distance_normalised)", 'R18.5'),
+    V('C18', 'polygon-of-other-hit', _T, "            polygon = self.convention.polygons[linear_index]\n            index = self.convention.wind_index(linear_index)", "            polygon = self.convention.polygons[linear_index]\n            index = self.convention.wind_index(int(intersecting_indexes[0]))", 'R18.1'),
+    # benign
+    V('C18', 'benign-rename-locals', _T, "        for linear_index in intersecting_indexes:\n            polygon = self.convention.polygons[linear_index]\n            index = self.convention.wind_index(linear_index)\n            for intersection in self._intersect_polygon(polygon):",
+      "        for hit in intersecting_indexes:\n            linear_index = hit\n            polygon = self.convention.polygons[hit]\n            index = self.convention.wind_index(hit)\n            for intersection in self._intersect_polygon(polygon):", None),
 ]
